@@ -80,16 +80,66 @@ pub fn gen_stack_scenario(rng: &mut Rng, tier: Tier, stats: &mut GenStats, prop:
     // Stacks must not share hidden state: sometimes two independent stacks are advanced alternately.
     let nw = if max_walkers > 1 && g.rng.chance(1, 8) { 2 } else { 1 };
     let walkers: Vec<Walker> = (0..nw).map(|_| stack_walker(&mut g, &model, &tree, has_links, stats, max_layers)).collect();
+    let mut walkers = walkers;
     let schedule = interleaving(g.rng, nw, tree.len());
+    // In flight, rarely (C13 only): a plain file that a `filter_entry` closure discards *as a tree*
+    // becomes a directory with children while the closure is looking at it. What was listed as a
+    // file is not a directory tree: discarding it must not cancel anything, whatever the file
+    // system says by then ("discarding a non-directory never causes a sibling to be skipped").
+    // The reference execution runs in the world as built, where the entry is a file.
+    let mut mutations = Vec::new();
+    let mut triggers = Vec::new();
+    // (one walker only: a second walk would rightly find the new directory)
+    if prop == "C13" && nw == 1 && !has_links && tree.iter().all(|n| n.mode.is_none()) && g.rng.chance(1, 7) {
+        let wi = g.rng.below(nw);
+        let w = &mut walkers[wi];
+        let files: Vec<String> = tree
+            .iter()
+            .filter(|n| n.kind == Kind::File && is_below(&n.path, &w.base))
+            .map(|n| n.path.clone())
+            .collect();
+        let discarded: Vec<String> = w
+            .layers
+            .iter()
+            .filter_map(|l| if let Layer::Fe(t) = l { Some(t) } else { None })
+            .flat_map(|t| t.iter().filter(|(p, v)| *v == Verdict::Tree && files.contains(p)).map(|(p, _)| p.clone()))
+            .collect();
+        let target = if !discarded.is_empty() {
+            Some(g.rng.pick(&discarded).clone())
+        }
+        else if !files.is_empty() {
+            let f = g.rng.pick(&files).clone();
+            match w.layers.iter_mut().find_map(|l| match l {
+                Layer::Fe(t) if !t.is_empty() && !t.iter().any(|(p, _)| *p == f) => Some(t),
+                _ => None,
+            }) {
+                Some(t) => {
+                    t.push((f.clone(), Verdict::Tree));
+                    Some(f)
+                },
+                None => None,
+            }
+        }
+        else {
+            None
+        };
+        if let Some(f) = target {
+            mutations.push(Mutation { path: f.clone(), op: MutOp::ToDir(g.rng.range(1, 3)) });
+            // the strike comes while the closure looks at the file itself, or earlier: while it
+            // looks at the directory that lists it (whose listing has been read by then)
+            let at = if g.rng.chance(1, 2) { f } else { parent(&f).to_string() };
+            triggers.push(Trigger { w: wi, path: at, mutation: 0 });
+        }
+    }
     Scenario {
         prop: prop.into(),
         seed: 0,
         tree,
         cwd,
         walkers,
-        mutations: vec![],
+        mutations,
         schedule,
-        triggers: vec![],
+        triggers,
         lazy: false,
     }
 }
@@ -260,6 +310,9 @@ pub fn check(sc: &Scenario, env: &mut Env) -> Result<Outcome, HarnessError> {
             out.nontrivial = true;
         }
         walker_probes(w, &mut out);
+        if sc.triggers.iter().any(|t| t.w == wi) && log.iter().any(|e| matches!(e, crate::exec::Ev::Mut { .. })) {
+            out.probe("in-flight:file-discarded-as-tree-became-a-directory");
+        }
         discard_probes(&w.layers, &u, &ex, &mut out);
     }
     Ok(out)
